@@ -18,6 +18,7 @@ RULE = ('All ordered pairs of line lists of length <= 4 (quick) / <= 6 (thorough
         'Identical+Remove == left lines, Identical+Add == right lines, equal inputs give only Identical blocks. '
         'Non-trivial: the two sides share at least one line and differ in at least one; distinct by content hash of the pair.')
 RULE += " Also: line lists that collide when glued with a separator (the same atoms cut into the same number of lines at different places); lines differing by a lone surrogate, a combining mark, case; array left / text right; the host's own list objects edited in place between two calls. Round 5: 26-70 lines a side, unrelated or nearly identical."
+RULE += ' Round 7: lines made of characters an implementation might reserve (U+FFFF, U+FFFE, U+FEFF alone and as a prefix, NUL, U+2028, private use).'
 ASSUMPTIONS = [
     'diff.bare is loaded once per process through execute_script with the CLI fetcher (bare._fetch_include) and system prefix',
     'a string input, and every element of an array input, denotes the lines obtained by splitting it on \\r?\\n (the documented line split); '
